@@ -30,8 +30,9 @@ Theorem C02_leaf_writer : forall c k l,
   leaf_ok c k l = true -> leaf_enc c k (DLeaf l) = Ok (sleaf c spyne_style k l).
 Proof. exact leaf_enc_spec. Qed.
 
+(** in every style: text that arrives as a byte string is decoded before it is parsed *)
 Theorem C02_leaf_reader : forall c st nillable k l,
-  st_text_bin st = false -> leaf_ok c k l = true ->
+  leaf_ok c k l = true ->
   leaf_dec c nillable k (sleaf c st k l) = Ok (DLeaf (lnorm l)).
 Proof. exact leaf_dec_spec. Qed.
 
@@ -42,7 +43,6 @@ Proof. exact sleaf_dec_spec. Qed.
 (** integers of any magnitude: no bound at all over JSON and YAML and inside the 64-bit
     ranges of MessagePack; beyond, the decimal text must fit the declared max_str_len *)
 Theorem C02_integers_any_magnitude : forall c msl z st nillable,
-  st_text_bin st = false ->
   (is_msgpack c = true -> in64 z = false -> ext_leb (Fin (len (str_int z))) msl = true) ->
   leaf_enc c (KInt msl) (DLeaf (LInt z)) = Ok (sleaf c spyne_style (KInt msl) (LInt z))
   /\ leaf_dec c nillable (KInt msl) (sleaf c st (KInt msl) (LInt z)) = Ok (DLeaf (LInt z))
@@ -50,7 +50,7 @@ Theorem C02_integers_any_magnitude : forall c msl z st nillable,
 Proof. exact integers_any_magnitude. Qed.
 
 Theorem C02_decimals_any_magnitude : forall c msl d st nillable,
-  st_text_bin st = false -> 0 <= d_coef d -> ext_leb (Fin (len (dec_str d))) msl = true ->
+  0 <= d_coef d -> ext_leb (Fin (len (dec_str d))) msl = true ->
   leaf_enc c (KDecimal msl) (DLeaf (LDecimal d)) = Ok (sleaf c spyne_style (KDecimal msl) (LDecimal d))
   /\ leaf_dec c nillable (KDecimal msl) (sleaf c st (KDecimal msl) (LDecimal d)) = Ok (DLeaf (LDecimal d))
   /\ sleaf_dec c nillable (KDecimal msl) (sleaf c spyne_style (KDecimal msl) (LDecimal d))
@@ -68,9 +68,10 @@ Theorem C02_serializer_writes_conventions : forall c U poly f x fuel,
   o2d c U fuel (dmulti f) (df_ty f) x = Ok (senc c U spyne_style (dmulti f) (df_ty f) x).
 Proof. exact serializer_writes_conventions. Qed.
 
-(** the reader reads every conventional member document back (keys str or bin, text str) *)
+(** the reader reads every conventional member document back, whichever way a MessagePack
+    peer writes keys and text (str or bin) *)
 Theorem C02_reader_reads_conventions : forall c U poly st f x fuel,
-  wf_universe U = true -> (poly = true -> c_iw c = false) -> st_text_bin st = false ->
+  wf_universe U = true -> (poly = true -> c_iw c = false) ->
   member_conf c U poly f x = true -> dmulti f = false -> (vdepth x <= fuel)%nat ->
   (x = DNone -> c_list c = true \/ 0 < df_min f) ->
   fdv c U fuel (df_nillable f) (df_ty f) (senc c U st false (df_ty f) x) = Ok (vnorm x).
@@ -83,7 +84,6 @@ Proof. exact reader_reads_conventions. Qed.
 Theorem C02_request_fidelity : forall c U st sigs s args fuel,
   wf_universe (ext_universe U s) = true ->
   find_sig sigs (sg_name s) = Some s ->
-  st_text_bin st = false ->
   members_conf c (ext_universe U s) (rpoly c) (sg_params s) args = true ->
   (vdepth (DObj (in_cid U) args) <= fuel)%nat ->
   serve_request c U fuel sigs (sreq c U st s args) = SCall (map vnorm args).
@@ -103,7 +103,6 @@ Proof. exact response_fidelity. Qed.
 Theorem C02_call_fidelity : forall c U st sigs s (f : list dval -> list dval) args fuel,
   wf_universe (ext_universe U s) = true ->
   find_sig sigs (sg_name s) = Some s ->
-  st_text_bin st = false ->
   negb (c_list c) || c_iw c = true ->
   members_conf c (ext_universe U s) (rpoly c) (sg_params s) args = true ->
   members_conf c (ext_universe U s) (rpoly c) (sg_results s) (f (map vnorm args)) = true ->
@@ -125,7 +124,6 @@ Theorem C02_rpc_request_fidelity : forall c U st msgid sigs s args fuel,
   c_iw c = true ->
   wf_universe (ext_universe U s) = true ->
   find_sig sigs (sg_name s) = Some s ->
-  st_text_bin st = false ->
   members_conf c (ext_universe U s) false (sg_params s) args = true ->
   rpc_args_ok c (sg_params s) args ->
   (vdepth (DObj (in_cid U) args) <= fuel)%nat ->
@@ -174,6 +172,7 @@ Theorem C02_source_tables :
   /\ (forall n mn mx, freq_low (Fin n) (Fin mn) = (n <? mn) /\ freq_high (Fin n) (Fin mx) = (mx <? n)
                       /\ freq_high (Fin n) PosInf = false)
   /\ null_member_is_none = true /\ body_lookup_both_key_forms = true /\ single_none_is_null = true
+  /\ int_slot_float_is_int = true /\ ret_bool_by_identity = true /\ hier_counts_array_items = false
   /\ handlers = expected_handlers
   /\ GMsgpack_key_utf8 = true /\ GJson_key_utf8 = false /\ GYaml_key_utf8 = false
   /\ GMsgpack_writes_bytes = true /\ GJson_base64 = true /\ GYaml_base64 = true.
@@ -219,6 +218,8 @@ Example C02_ex_call :
   /\ serve_request ex_mp ex_U 20 [ex_sig] (sreq ex_mp ex_U (mkstyle false false false) ex_sig ex_args_flat)
      = SCall ex_args_flat
   /\ serve_request ex_mp ex_U 20 [ex_sig] (sreq ex_mp ex_U (mkstyle true false false) ex_sig ex_args_flat)
+     = SCall ex_args_flat
+  /\ serve_request ex_mp ex_U 20 [ex_sig] (sreq ex_mp ex_U spyne_style ex_sig ex_args_flat)
      = SCall ex_args_flat.
 Proof. vm_compute. repeat split. Qed.
 
